@@ -55,9 +55,11 @@ pub fn guarded_execute(ctx: &mut Ctx, eq: &mut EqTable, start: &Start, src: &mut
             match crumb_take() {
                 Some(call) => {
                     ctx.stats.inc("engine_panics");
-                    if ctx.own & p(19) != 0 {
+                    // a panic belongs to C19 and to the properties whose observable was being asked
+                    let owners = p(19) | panic_owners(call);
+                    if ctx.own & owners != 0 {
                         let monitor = "panic".to_string();
-                        (RunResult::Fail(Failure { run, prop: 19, monitor, detail: format!("engine call {} panicked: {}", call, msg), start: start.clone(), ops: trace.clone(), op_index: trace.len().saturating_sub(1) }), None)
+                        (RunResult::Fail(Failure { run, prop: own_prop(owners, ctx.own), monitor, detail: format!("engine call {} panicked instead of returning: {}", call, msg), start: start.clone(), ops: trace.clone(), op_index: trace.len().saturating_sub(1) }), None)
                     } else {
                         (RunResult::Foreign, None)
                     }
@@ -65,6 +67,26 @@ pub fn guarded_execute(ctx: &mut Ctx, eq: &mut EqTable, start: &Start, src: &mut
                 None => (RunResult::Harness(format!("harness panic: {}", msg)), None),
             }
         }
+    }
+}
+
+/// which properties' observables a panicking engine call belongs to (besides C19)
+pub fn panic_owners(call: &str) -> PropMask {
+    match call {
+        "valid_actions_no_rep" => p(1) | p(12),
+        "valid_actions" => p(6) | p(7) | p(5),
+        "take_action" => p(2) | p(3),
+        "is_terminal" => p(4) | p(7),
+        "has_move" | "can_pass(true)" | "can_pass(false)" => p(7),
+        "transposition_hash" | "Zobrist::from_piece_board" | "board_state_hash_with_push_pull_state" | "hash_history" | "hash_history.iter" => p(8),
+        "piece_board_for_step" | "previous_piece_boards" => p(14),
+        "trapped_animal_for_action" => p(13),
+        "Display" => p(10) | p(15),
+        "GameState::from_str" => p(15),
+        "Action::from_str" => p(16),
+        "piece_board" | "piece_type_at_square" | "bits_for_piece" | "bits_by_piece_type" | "player_piece_mask" => p(10),
+        "current_step" => p(3),
+        _ => 0,
     }
 }
 
@@ -342,4 +364,24 @@ pub fn finish_batch(cfg: &BatchConfig, r: BatchResult, out: &str, replay_dir: &s
     }
     println!("{} game part: {} runs, {} steps, {} own-monitor evaluations, {} distinct non-trivial, {} foreign aborts, {:.1}s", prop_name(prop), r.runs_done, steps, r.evals, r.distinct.len(), r.foreign, r.wall_s);
     exit
+}
+
+/// States at which the repetition rules withhold something, harvested from seeded sequential games
+/// (sparse boards, shuffling players).  Deterministic in `seed`; used as shared roots by the
+/// concurrent scenarios, which need states whose expansion consults the history.
+pub fn build_state_pool(seed: u64, want: usize) -> Vec<arimaa_engine_step::GameState> {
+    let cfg = BatchConfig { prop: 6, own: 0, tier: "pool".into(), seed: seed ^ 0x9001, runs: 0, workers: 1, mix: mix_for(6), wall_cap_s: 60.0, digests: None };
+    let mut ctx = Ctx::new(0);
+    ctx.capture_limit = want * 6;
+    let mut eq = EqTable::default();
+    let mut idx = 0u64;
+    while ctx.captured.len() < ctx.capture_limit && idx < 4000 {
+        let _ = run_one(&mut ctx, &mut eq, &cfg, idx, false);
+        idx += 1;
+    }
+    // mixed-answer states first, then the others; keep the order of discovery within a class
+    let mut out: Vec<arimaa_engine_step::GameState> = ctx.captured.iter().filter(|(c, _)| *c == 2).map(|(_, g)| g.clone()).collect();
+    out.extend(ctx.captured.iter().filter(|(c, _)| *c != 2).map(|(_, g)| g.clone()));
+    out.truncate(want);
+    out
 }
